@@ -243,6 +243,12 @@ def run_stream(stream, profiles, seed, tier, extra_args=""):
                 return result  # not cached
             rc, out = sh("%s %s --seed %d --tier %s --out %s %s" % (binp, stream, seed, tier, d, extra_args),
                          cwd=VERIF, timeout=1800)
+            if rc == 4:
+                hang = [l for l in out.splitlines() if l.startswith("HANG:")]
+                result["build_error"] = "the implementation did not return while the %s stream (%s profile) was running: %s" % (stream, prof, (hang or [out[-800:]])[0][:3000])
+                result["hang"] = True
+                result["wall_s"] = time.time() - t0
+                return result
             if rc != 0:
                 result["build_error"] = "harness run (%s %s) failed rc=%d:\n%s" % (stream, prof, rc, out[-3000:])
                 result["wall_s"] = time.time() - t0
@@ -291,6 +297,10 @@ def run_oracle(pid, profile, seed, tier, extra=""):
     rc, out = sh("%s oracle --prop %s --seed %d --tier %s --replay-dir %s %s" %
                  (binp, pid, seed, tier, os.path.join(BUILD, "replays"), extra), cwd=VERIF, timeout=3000)
     last = [l for l in out.splitlines() if l.startswith("{")]
+    if rc == 4 and not last:
+        hang = [l for l in out.splitlines() if l.startswith("HANG:")]
+        return {"ok": False, "evaluations": 1, "distinct_nontrivial": 0, "samples": [],
+                "violations": [{"desc": "%s: the implementation hangs: %s" % (pid, (hang or ["?"])[0][:3000])}], "profile": profile}
     if rc not in (0, 1) or not last:
         return {"ok": False, "build_error": "oracle crashed rc=%d: %s" % (rc, out[-2000:])}
     r = json.loads(last[-1])
